@@ -785,7 +785,10 @@ where
             }
             Instruction::MStructSet(n) => {
                 let n: usize = n.into();
-                let mut field_name_value_pairs = Vec::with_capacity(n);
+                // `n` comes from the module and may be arbitrarily large; each
+                // pair consumes two stack values, so the stack depth bounds
+                // the number of pairs that can actually be popped.
+                let mut field_name_value_pairs = Vec::with_capacity(n.min(self.stack.len()));
 
                 for _ in 0..n {
                     let field_val = self.ipop_value()?;
